@@ -90,7 +90,13 @@ def build_pool():
     # the on-disk JSON form of a notebook (multi-line strings as lists of lines) is schema-valid input too
     import nbformat
     rawA = json.loads(nbformat.writes(copy.deepcopy(A)))
+    # aligned outputs that differ in a string-valued mime entry no specialised differ looks into
+    ven1 = copy.deepcopy(A)
+    ven1.cells[0].outputs = [nbformat.v4.new_output("display_data", data={"text/plain": "a chart", "application/vnd.acme.chart": "series one\nbar chart v1\n"})]
+    ven2 = copy.deepcopy(ven1)
+    ven2.cells[0].outputs[0]["data"]["application/vnd.acme.chart"] = "series one\nbar chart v2\n"
     pool = {
+        "d_vendor": ("diff", ven1, ven2),
         "d_raw": ("diff", A, rawA), "d_plain": ("diff", A, B), "d_rev": ("diff", B, A), "d_lol": ("diff", lol1, lol2), "d_loo": ("diff", loo1, loo2),
         "d_obj": ("diff", obj1, obj2), "d_swap": ("diff", sw1, sw2), "d_swaprev": ("diff", sw2, sw1),
         "m_plain": ("merge", A, B, C), "m_lol": ("merge", lol1, lol2, with_layout(C, [[1, 2], [3], [9]], [[1], [2]], [[1, 2], [3]])),
@@ -243,7 +249,7 @@ def run():
     os.chdir(work)
     if chk.quick:
         maxlen = 3
-        calls = ["d_plain", "d_raw", "d_lol", "d_loo", "d_obj", "d_swap", "d_swaprev", "m_lol"]
+        calls = ["d_plain", "d_raw", "d_vendor", "d_lol", "d_loo", "d_obj", "d_swap", "d_swaprev", "m_lol"]
         targets = [ALLCATS, ("sources",), ("sources", "outputs", "attachments", "metadata", "id")]
         maps = ["cellmeta-keys", "nbmeta-true"]
     else:
